@@ -18,82 +18,313 @@ example : isInternal (reverseBytesH [true, false] 0 3) = true := by decide
 /-! ### public entry points never reach them -/
 
 theorem lshift_no_internal (l : Bits) (n : Int) : isInternal (pubLshift l n) = false := by
-  sorry
+  unfold pubLshift
+  split
+  · rfl
+  split
+  · rfl
+  apply isInternal_bind
+  · apply absoluteSlice_ni; omega
+  · intro a _; rfl
 
 theorem rshift_no_internal (l : Bits) (n : Int) : isInternal (pubRshift l n) = false := by
-  sorry
+  unfold pubRshift
+  split
+  · rfl
+  split
+  · rfl
+  split
+  · rfl
+  apply isInternal_bind
+  · apply absoluteSlice_ni; omega
+  · intro a _; rfl
 
 theorem ilshift_no_internal (l : Bits) (n : Int) : isInternal (pubIlshift l n) = false := by
-  sorry
+  unfold pubIlshift
+  split
+  · rfl
+  split
+  · rfl
+  split
+  · rfl
+  apply ilshiftH_ni
+  omega
 
 theorem irshift_no_internal (l : Bits) (n : Int) : isInternal (pubIrshift l n) = false := by
-  sorry
+  unfold pubIrshift
+  split
+  · rfl
+  split
+  · rfl
+  split
+  · rfl
+  apply irshiftH_ni
+  omega
 
 theorem imul_no_internal (l : Bits) (n : Int) : isInternal (pubImul l n) = false := by
-  sorry
+  unfold pubImul
+  split
+  · rfl
+  · unfold imulH
+    rw [check_of _ (by omega)]
+    rfl
 
 theorem insert_no_internal (l b : Bits) (pos : Int) : isInternal (pubInsert l b pos) = false := by
-  sorry
+  unfold pubInsert
+  by_cases h1 : b.length = 0
+  · rw [if_pos h1]; rfl
+  · rw [if_neg h1]
+    dsimp only
+    generalize (if pos < 0 then pos + (l.length : Int) else pos) = p
+    by_cases h2 : 0 ≤ p ∧ p ≤ l.length
+    · rw [if_neg (not_not_intro h2)]; exact insertH_ni l b p h2
+    · rw [if_pos h2]; rfl
 
 /-- including `a.overwrite(a, pos)` with any `pos`. -/
 theorem overwrite_no_internal (l b : Bits) (pos : Int) (same : Bool) :
     isInternal (pubOverwrite l b pos same) = false := by
-  sorry
+  unfold pubOverwrite
+  dsimp only
+  generalize (if same = true then l else b) = b'
+  by_cases h1 : b'.length = 0
+  · rw [if_pos h1]; rfl
+  · rw [if_neg h1]
+    generalize (if pos < 0 then pos + (l.length : Int) else pos) = p
+    by_cases h2 : p < 0 ∨ p > l.length
+    · rw [if_pos h2]; rfl
+    · rw [if_neg h2]
+      unfold overwriteH
+      rw [check_of _ (by omega)]
+      rfl
 
 /-- including empty ranges `start = end` (no division by zero) and any rotation count. -/
 theorem rol_no_internal (l : Bits) (bits : Int) (s e : Option Int) : isInternal (pubRol l bits s e) = false := by
-  sorry
+  unfold pubRol
+  split
+  · rfl
+  split
+  · rfl
+  cases hv : validateSlice l.length s e with
+  | error er => rw [validateSlice_err _ _ _ _ hv]; rfl
+  | ok p =>
+    obtain ⟨s', e'⟩ := p
+    have hb := validateSlice_ok _ _ _ _ _ hv
+    rw [ok_bind]
+    dsimp only
+    split
+    · rfl
+    rename_i hne
+    rw [check_of _ (by omega), ok_bind]
+    split
+    · rfl
+    have hk0 := Int.emod_nonneg bits (by omega : e' - s' ≠ 0)
+    have hk1 := Int.emod_lt_of_pos bits (by omega : 0 < e' - s')
+    rw [deleteH_ok l _ _ (by omega) (by omega), ok_bind]
+    apply insertH_ni
+    have hl := pySetSlice_length l s' (s' + bits % (e' - s')) [] (by omega) (by omega) (by omega)
+    simp only [List.length_nil] at hl
+    omega
 
 theorem ror_no_internal (l : Bits) (bits : Int) (s e : Option Int) : isInternal (pubRor l bits s e) = false := by
-  sorry
+  unfold pubRor
+  split
+  · rfl
+  split
+  · rfl
+  cases hv : validateSlice l.length s e with
+  | error er => rw [validateSlice_err _ _ _ _ hv]; rfl
+  | ok p =>
+    obtain ⟨s', e'⟩ := p
+    have hb := validateSlice_ok _ _ _ _ _ hv
+    rw [ok_bind]
+    dsimp only
+    split
+    · rfl
+    rename_i hne
+    rw [check_of _ (by omega), ok_bind]
+    split
+    · rfl
+    have hk0 := Int.emod_nonneg bits (by omega : e' - s' ≠ 0)
+    have hk1 := Int.emod_lt_of_pos bits (by omega : 0 < e' - s')
+    rw [deleteH_ok l _ _ (by omega) (by omega), ok_bind]
+    apply insertH_ni
+    have hl := pySetSlice_length l (e' - bits % (e' - s')) (e' - bits % (e' - s') + bits % (e' - s')) []
+      (by omega) (by omega) (by omega)
+    simp only [List.length_nil] at hl
+    omega
 
 theorem invert_no_internal (l : Bits) (ps : List Int) : isInternal (pubInvert l ps) = false := by
-  sorry
+  unfold pubInvert
+  apply foldlM_ni _ (fun acc => acc.length = l.length) ps l rfl
+  intro acc hacc p _
+  dsimp only
+  generalize (if p < 0 then p + (l.length : Int) else p) = q
+  by_cases hq : 0 ≤ q ∧ q < l.length
+  · rw [if_neg (not_not_intro hq), invertH_ok acc q (by omega)]
+    refine ⟨rfl, fun r hr => ?_⟩
+    injection hr with hr
+    subst hr
+    rw [List.length_set]
+    exact hacc
+  · rw [if_pos hq]
+    exact ⟨rfl, fun r hr => by cases hr⟩
 
 theorem byteswap_no_internal (l : Bits) (fmt : Int) (s e : Option Int) (rep : Bool) :
     isInternal (pubByteswap l fmt s e rep) = false := by
-  sorry
+  unfold pubByteswap
+  cases hv : validateSlice l.length s e with
+  | error er => rw [validateSlice_err _ _ _ _ hv]; rfl
+  | ok p =>
+    obtain ⟨s', e'⟩ := p
+    rw [ok_bind]
+    dsimp only
+    by_cases hf : fmt < 0
+    · rw [if_pos hf]; rfl
+    rw [if_neg hf]
+    generalize (if fmt = 0 then (e' - s') / 8 else fmt) = size
+    by_cases ht : 8 * size = 0
+    · rw [if_pos ht]; rfl
+    rw [if_neg ht]
+    apply foldlM_ni _ (fun _ => True) _ _ trivial
+    intro acc _ pe _
+    refine ⟨?_, fun _ _ => trivial⟩
+    apply isInternal_bind
+    · apply reverseBytesH_ni
+      omega
+    · intro a _; rfl
 
 /-! ### the documented errors, exactly -/
 
 theorem lshift_err_iff (l : Bits) (n : Int) :
     pubLshift l n = .error .value ↔ (n < 0 ∨ l = []) := by
-  sorry
+  unfold pubLshift
+  by_cases h1 : n < 0
+  · rw [if_pos h1]; exact ⟨fun _ => Or.inl h1, fun _ => rfl⟩
+  · rw [if_neg h1]
+    by_cases h2 : l.length = 0
+    · rw [if_pos h2]; exact ⟨fun _ => Or.inr (List.length_eq_zero_iff.mp h2), fun _ => rfl⟩
+    · rw [if_neg h2]
+      obtain ⟨r, hr⟩ := absoluteSlice_ok l (min n l.length) l.length (by omega)
+      dsimp only
+      rw [hr]
+      constructor
+      · intro h; cases h
+      · intro h
+        rcases h with h | h
+        · omega
+        · exact absurd (by rw [h]; rfl) h2
 
 theorem insert_err_iff (l b : Bits) (pos : Int) :
-    pubInsert l b pos = .error .value ↔ (b ≠ [] ∧ (pos < -(l.length : Int) ∨ (l.length : Int) < pos)) := by
-  sorry
+    pubInsert l b pos = .error .value ↔ (pos < -(l.length : Int) ∨ (l.length : Int) < pos) := by
+  unfold pubInsert
+  by_cases h1 : b.length = 0
+  · rw [if_pos h1]
+    constructor
+    · intro h; cases h
+    · intro h; exact absurd (List.length_eq_zero_iff.mp h1) h.1
+  · rw [if_neg h1]
+    have hb : b ≠ [] := fun h => h1 (by rw [h]; rfl)
+    dsimp only
+    by_cases h2 : 0 ≤ (if pos < 0 then pos + (l.length : Int) else pos) ∧
+        (if pos < 0 then pos + (l.length : Int) else pos) ≤ l.length
+    · rw [if_neg (not_not_intro h2), insertH_ok l b _ h2]
+      constructor
+      · intro h; cases h
+      · intro h
+        split at h2 <;> omega
+    · rw [if_pos h2]
+      constructor
+      · intro _
+        refine ⟨hb, ?_⟩
+        split at h2 <;> omega
+      · intro _; rfl
 
 theorem validateSlice_ok_iff (len : Nat) (s e : Option Int) :
     (∃ r, validateSlice len s e = .ok r) ↔
       (let s' : Int := match s with | none => 0 | some x => if x < 0 then x + len else x
        let e' : Int := match e with | none => len | some x => if x < 0 then x + len else x
        0 ≤ s' ∧ s' ≤ e' ∧ e' ≤ len) := by
-  sorry
+  exact ite_ok_iff _ _ _
 
 /-! ### lengths: operations that are not length-changing by definition keep `len(s) = len(s.bin)` trivially in the
     model (one list); the interesting facts are the stream-position ones -/
 
 theorem setPos_valid (s : Stream) (p : Int) (s' : Stream) (h : setPos s p = .ok s') : s'.Valid ∧ s'.bits = s.bits := by
-  sorry
+  obtain ⟨h0, h1, h2⟩ := setPos_ok s p s' h
+  subst h2
+  exact ⟨⟨h0, h1⟩, rfl⟩
 
 theorem bytealign_valid (s s' : Stream) (k : Int) (hv : s.Valid) (h : bytealign s = .ok (s', k)) :
     s'.Valid ∧ s'.bits = s.bits ∧ s'.pos = s.pos + k ∧ 0 ≤ k ∧ k < 8 ∧ s'.pos % 8 = 0 := by
-  sorry
+  unfold bytealign at h
+  dsimp only at h
+  cases hs : setPos s (s.pos + (8 - s.pos % 8) % 8) with
+  | error er => rw [hs] at h; cases h
+  | ok s1 =>
+    rw [hs] at h
+    injection h with h
+    injection h with h1 h2
+    subst h1 h2
+    obtain ⟨h0, h1, h2⟩ := setPos_ok _ _ _ hs
+    subst h2
+    refine ⟨⟨h0, h1⟩, rfl, rfl, ?_, ?_, ?_⟩
+    · omega
+    · omega
+    · show (s.pos + (8 - s.pos % 8) % 8) % 8 = 0
+      omega
 
 /-- `bytealign` fails (ValueError, position unchanged since no new state is returned) exactly when rounding up
     would pass the end: the last partial byte. -/
 theorem bytealign_err_iff (s : Stream) (hv : s.Valid) :
     (∃ e, bytealign s = .error e) ↔ s.pos + (8 - s.pos % 8) % 8 > s.bits.length := by
-  sorry
+  unfold bytealign
+  dsimp only
+  have hv' : 0 ≤ s.pos ∧ s.pos ≤ s.bits.length := hv
+  rw [← (by
+    constructor
+    · intro h; rcases h with h | h
+      · omega
+      · exact h
+    · intro h; exact Or.inr h :
+    (s.pos + (8 - s.pos % 8) % 8 < 0 ∨ s.pos + (8 - s.pos % 8) % 8 > s.bits.length) ↔
+      s.pos + (8 - s.pos % 8) % 8 > s.bits.length), ← setPos_err_iff]
+  cases hs : setPos s (s.pos + (8 - s.pos % 8) % 8) with
+  | error er => exact ⟨fun _ => ⟨_, rfl⟩, fun _ => ⟨_, rfl⟩⟩
+  | ok s1 => exact ⟨fun ⟨e, h⟩ => (by cases h), fun ⟨e, h⟩ => (by cases h)⟩
 
 theorem readInt_valid (s s' : Stream) (n : Int) (b : Bits) (hv : s.Valid) (h : readInt s n = .ok (s', b)) :
     s'.Valid ∧ s'.bits = s.bits ∧ s'.pos = s.pos + n ∧ (b.length : Int) = n := by
-  sorry
+  have hv' : 0 ≤ s.pos ∧ s.pos ≤ s.bits.length := hv
+  unfold readInt at h
+  by_cases h1 : n < 0
+  · rw [if_pos h1] at h; cases h
+  · rw [if_neg h1] at h
+    by_cases h2 : n > s.bits.length - s.pos
+    · rw [if_pos h2] at h; cases h
+    · rw [if_neg h2] at h
+      injection h with h
+      injection h with h3 h4
+      subst h3 h4
+      refine ⟨⟨?_, ?_⟩, rfl, rfl, ?_⟩
+      · show 0 ≤ s.pos + n
+        omega
+      · show s.pos + n ≤ s.bits.length
+        omega
+      · have := pySlice_length s.bits s.pos (s.pos + n) (by omega) (by omega) (by omega)
+        omega
 
 theorem readInt_err (s : Stream) (n : Int) (hv : s.Valid) :
     (readInt s n = .error .value ↔ n < 0) ∧
     (readInt s n = .error .read ↔ (0 ≤ n ∧ n > (s.bits.length : Int) - s.pos)) := by
-  sorry
+  unfold readInt
+  by_cases h1 : n < 0
+  · rw [if_pos h1]
+    refine ⟨⟨fun _ => h1, fun _ => rfl⟩, ⟨fun h => (by cases h), fun h => by omega⟩⟩
+  · rw [if_neg h1]
+    by_cases h2 : n > s.bits.length - s.pos
+    · rw [if_pos h2]
+      refine ⟨⟨fun h => (by cases h), fun h => by omega⟩, ⟨fun _ => ⟨by omega, h2⟩, fun _ => rfl⟩⟩
+    · rw [if_neg h2]
+      refine ⟨⟨fun h => (by cases h), fun h => by omega⟩, ⟨fun h => (by cases h), fun h => by omega⟩⟩
 
 end BM.C20
